@@ -112,21 +112,51 @@ Definition x_pols (r : resource) (pf : list polfound) : bool :=
 Definition x_reaches (e : env) (cl : cluster) (r : resource) (revs : list rev) (pf : list polfound) : bool :=
   forallb (fun v => Bool.eqb (reaches e cl (rv_kind v) (rv_ns v) (rv_name v) r) (rev_reaches pf v)) revs.
 
+(* (6) the hypotheses of the theorems hold of what was observed *)
+Definition valid_nameb' (s : string) : bool := negb (contains slash s) && negb (contains comma s).
+Definition x_wf (cl : cluster) (r : resource) (revs : list rev) : bool :=
+  resource_wfb r &&
+  forallb (fun p => valid_nameb' (p_ns p) && valid_nameb' (p_name p)) (cl_policies cl) &&
+  forallb (fun v => valid_nameb' (rv_ns v) && valid_nameb' (rv_name v)) revs.
+
+(* one notification delivered through the real handler and the real lbc.sync *)
+Record ev := { ev_kind : kind; ev_ns : string; ev_name : string; ev_op : op; ev_relevant : bool;
+               ev_regen : bool; ev_stale : bool }.
+
+(* S at event level, on the implementation's outputs only: after the event, regenerating the resource
+   from the stores does not change its configuration file *)
+Definition ev_spec_ok (evs : list ev) : bool := forallb (fun x => negb (ev_stale x)) evs.
+
+Definition first_stale (evs : list ev) : Z :=
+  (fix go (l : list ev) (i : Z) : Z :=
+     match l with
+     | [] => (-1)%Z
+     | x :: r => if ev_stale x then i else go r (i + 1)%Z
+     end) evs 0%Z.
+
+(* X at event level: the resource is regenerated exactly when the model says the event reaches it *)
+Definition x_events (e : env) (cl : cluster) (r : resource) (evs : list ev) : bool :=
+  forallb (fun x => Bool.eqb (event_reaches e cl (ev_kind x) (ev_op x) (ev_relevant x) (ev_ns x) (ev_name x) r) (ev_regen x)) evs.
+
 (* how many model dependencies sit in a position the code gets wrong *)
 Definition refuted_count (e : env) (cl : cluster) (r : resource) : Z :=
   Z.of_nat (List.length (filter (fun c => refuted_pos e (fst c) (fst (snd c))) (consulted e cl r))).
 
-(* row: [id; model agrees; spec holds; nontrivial; #model deps; x1; x2; x3; x4; x5; first unreachable dep; #refuted] *)
+(* row: [id; model agrees; spec holds; nontrivial; #model deps; x1; x2; x3; x4; x5; first unreachable dep; #refuted;
+         x6; x7 (events); event spec; first stale event] *)
 Definition res_case (id : Z) (e : env) (cl : cluster) (r : resource)
-           (deps lookups : list dep) (revs : list rev) (pf : list polfound) : list Z :=
+           (deps lookups : list dep) (revs : list rev) (pf : list polfound) (evs : list ev) : list Z :=
   let x1 := x_deps_in_model e cl r deps in
   let x2 := x_model_in_lookups e cl r deps lookups revs in
   let x3 := x_rev e cl r revs in
   let x4 := x_pols r pf in
   let x5 := x_reaches e cl r revs pf in
-  [id; b2z (x1 && x2 && x3 && x4 && x5); b2z (spec_ok deps revs pf);
+  let x6 := x_wf cl r revs in
+  let x7 := x_events e cl r evs in
+  [id; b2z (x1 && x2 && x3 && x4 && x5 && x6 && x7); b2z (spec_ok deps revs pf && ev_spec_ok evs);
    b2z (negb (Nat.eqb (List.length deps) 0)); Z.of_nat (List.length (model_deps e cl r));
-   b2z x1; b2z x2; b2z x3; b2z x4; b2z x5; first_unreachable deps revs pf; refuted_count e cl r].
+   b2z x1; b2z x2; b2z x3; b2z x4; b2z x5; first_unreachable deps revs pf; refuted_count e cl r;
+   b2z x6; b2z x7; b2z (ev_spec_ok evs); first_stale evs].
 
 (* the field inventory the model was written against equals what reflection finds now *)
 Definition inv_case (id : Z) (fields : list string) : list Z :=
